@@ -2,7 +2,6 @@ package sim
 
 import (
 	"fmt"
-	"strconv"
 
 	"google.golang.org/grpc/metadata"
 
@@ -127,6 +126,7 @@ func mdEqualIgnoring(a, b metadata.MD, ignore ...string) bool {
 
 // OracleC17 checks the four accessors against the tunnel that carried each RPC.
 func OracleC17(w *World, h *History) {
+	oracleUnidentified(w, h, "C17", false)
 	byIdx := map[string]*Tunnel{}
 	for _, t := range w.Tunnels {
 		byIdx[fmt.Sprint(t.Idx)] = t
@@ -182,12 +182,7 @@ func OracleC17(w *World, h *History) {
 					}
 					expReq.Set("sim-rpc", fmt.Sprint(p.ID))
 				}
-				if p.Creds != nil {
-					for k, v := range p.Creds.MD {
-						expReq.Append(k, v)
-					}
-					expReq.Append("cred-call", "call-"+strconv.Itoa(p.ID))
-				}
+				appendCredsExp(expReq, p)
 				if !mdEqual(expReq, hi.ReqMD) {
 					w.AddViolation("C17", "request-md-mismatch", fmt.Sprintf("rpc %d: the handler's metadata.FromIncomingContext = %s, the caller attached %s (the tunnel was opened with %s)", id, mdString(hi.ReqMD), mdString(expReq), mdString(exp)), det, o.Ret)
 				}
